@@ -60,7 +60,8 @@ Definition judge_http (s : dbstate V) (st : hstep) : bool :=
       let rsp := respond r in
       (status_class (status rsp) =? status_class (h_status o))
       && negb (status_class (h_status o) =? 0)
-      && (if status rsp =? 200 then obody_ok (rb rsp) (h_body o) && h_ctype_json o
+      && (if status rsp =? 200 then obody_ok (rb rsp) (h_body o)
+                                    && (h_ctype_json o || negb (is_api (rq_endpoint (hs_rq st))))
           else if status rsp =? 304 then obody_ok (rb rsp) (h_body o)
           else negb (h_leak o) && match h_body o with OBResult _ => false | _ => true end)
       (* the principal recorded and the permissions applied are the identified caller's *)
